@@ -12,10 +12,10 @@ import Fadl.Syntax
 namespace Fadl
 
 def accV : List String := ["acc", "v"]
-def lamCount : Expr := .lam accV (.op "Add" [.name "acc", .const (.int 1)])
-def lamSum : Expr := .lam accV (.op "Add" [.name "acc", .name "v"])
-def lamMax : Expr := .lam accV (.op "IfExp" [.op "Cmp:Gt" [.name "acc", .name "v"], .name "acc", .name "v"])
-def lamMin : Expr := .lam accV (.op "IfExp" [.op "Cmp:Lt" [.name "acc", .name "v"], .name "acc", .name "v"])
+def lamCount : Expr := .lam accV (.op (.bin "Add") [.name "acc", .const (.int 1)])
+def lamSum : Expr := .lam accV (.op (.bin "Add") [.name "acc", .name "v"])
+def lamMax : Expr := .lam accV (.op .ifExp [.op (.cmp ["Gt"]) [.name "acc", .name "v"], .name "acc", .name "v"])
+def lamMin : Expr := .lam accV (.op .ifExp [.op (.cmp ["Lt"]) [.name "acc", .name "v"], .name "acc", .name "v"])
 
 def aggCall (seq lam : Expr) : Expr := fcall "Aggregate" [seq, .const (.int 0), lam]
 
